@@ -127,8 +127,8 @@ WALK = {
                     AttrMenu=set()),
          dict(MinKids=1, MaxKids=2, MaxAtts=0, LexCap=2, XsiOn=False, VOn=False, RetypeTo={'integer', 'decimal'})),
         ('vtype', dict(KidMenu={kd(t, 1, 2) for t in ['int', 'integer', 'decimal', 'string']} | {kd('boolean', 0, 1)}, AttrMenu=set()),
-         dict(MinKids=1, MaxKids=2, MaxAtts=0, LexCap=2, XsiOn=False, VOn=True, RetypeTo={'string', 'decimal', 'integer'})),
-        ('anon', dict(KidMenu={kd(t, mn, 1, anon=True) for t in ['int', 'string', 'decimal', 'integer'] for mn in (0, 1)}
+         dict(MinKids=1, MaxKids=2, MaxAtts=0, LexCap=1, XsiOn=False, VOn=True, RetypeTo={'string', 'decimal', 'integer'})),
+        ('anon', dict(KidMenu={kd(t, 1, 1, anon=True) for t in ['int', 'string', 'decimal', 'integer']}
                       | {kd('int', 1, 2), kd('u', 1, 2), kd('string', 0, 1, True, True, anon=True)}, AttrMenu=set()),
          dict(MinKids=2, MaxKids=3, MaxAtts=0, LexCap=1, XsiOn=False, VOn=False, RetypeTo={'string', 'decimal'})),
         ('big', dict(KidMenu={kd(t, 1, 1) for t in ['long', 'unsignedLong', 'bint', 'bdec']},
@@ -146,7 +146,7 @@ WALK = {
                                  ad('c', 'boolean', 'dflt'), ad('c', 'small', 'req'), ad('c', 'decimal', 'dflt')}),
          dict(MinKids=1, MaxKids=1, MaxAtts=2, LexCap=1, XsiOn=False, VOn=False, RetypeTo={'string', 'decimal'})),
         ('seq3', dict(KidMenu={kd('int', 1, 1, False, True), kd('int', 0, 1), kd('decimal', 1, 2, True, True),
-                               kd('grp', 1, 1), kd('boolean', 1, 2)},
+                               kd('grp', 1, 1)},
                       AttrMenu=set()),
          dict(MinKids=3, MaxKids=3, MaxAtts=0, LexCap=1, XsiOn=False, VOn=False, RetypeTo={'string'})),
     ],
